@@ -208,16 +208,36 @@ pub fn check_case(c: &FCase) -> Option<(String, String)> {
     None
 }
 
+/// Whatever the Length entry held before a content-changing call - nothing, a stale number, a reference to a length
+/// object as foreign files have it - it has to equal the content length afterwards.
+fn stale_length(s: &mut Stream, how: usize) {
+    match how % 4 {
+        1 => s.dict.set("Length", Object::Reference((9, 0))),
+        2 => s.dict.set("Length", Object::Integer(s.content.len() as i64 + 7)),
+        3 => {
+            s.dict.remove(b"Length");
+        }
+        _ => {}
+    }
+}
+
 fn check_compress(plain: &[u8]) -> Option<(String, String)> {
+    let how = plain.len();
     let mut s = Stream::new(Dictionary::new(), plain.to_vec());
+    stale_length(&mut s, how);
     if s.compress().is_err() {
         return Some(("compress".into(), "compress failed".into()));
     }
     if s.content.len() > plain.len() {
         return Some(("compress-longer".into(), format!("compress made the stream longer: {} -> {}", plain.len(), s.content.len())));
     }
-    if s.dict.get(b"Length").and_then(Object::as_i64).ok() != Some(s.content.len() as i64) {
+    // (incompressible content is left alone: then the call did not change the content and owes Length nothing)
+    let changed = s.content != plain;
+    if (changed || how % 4 == 0) && s.dict.get(b"Length").and_then(Object::as_i64).ok() != Some(s.content.len() as i64) {
         return Some(("length".into(), "Length != content length after compress".into()));
+    }
+    if !changed {
+        s.dict.set("Length", Object::Integer(s.content.len() as i64));
     }
     match s.get_plain_content() {
         Ok(p) if p == plain => {}
@@ -225,6 +245,7 @@ fn check_compress(plain: &[u8]) -> Option<(String, String)> {
     }
     let mut s3 = s.clone();
     if s3.is_compressed() {
+        stale_length(&mut s3, how / 4);
         if s3.decompress().is_err() || s3.content != plain {
             return Some(("compress-lossy".into(), "decompress(compress(x)) != x".into()));
         }
@@ -234,11 +255,13 @@ fn check_compress(plain: &[u8]) -> Option<(String, String)> {
     }
     // set_content / set_plain_content
     let mut s4 = s.clone();
+    stale_length(&mut s4, how / 16);
     s4.set_content(plain[..plain.len() / 2].to_vec());
     if s4.dict.get(b"Length").and_then(Object::as_i64).ok() != Some((plain.len() / 2) as i64) {
         return Some(("length".into(), "Length wrong after set_content".into()));
     }
     let mut s5 = s;
+    stale_length(&mut s5, how / 64);
     s5.set_plain_content(plain.to_vec());
     if s5.dict.get(b"Length").and_then(Object::as_i64).ok() != Some(plain.len() as i64) || s5.dict.has(b"Filter") || s5.content != plain {
         return Some(("length".into(), "set_plain_content left a wrong Length / Filter / content".into()));
@@ -439,7 +462,7 @@ pub fn run(cfg: &RunCfg) -> (PropMeta, ShardOut, Map<String, Value>) {
     });
     let meta = PropMeta {
         level: "exploration",
-        rule: "random plaintexts encoded by the reference encoders through every chain of 1..3 filters over {FlateDecode (stored/fixed/mixed blocks), LZWDecode (EarlyChange 0/1), ASCII85Decode (z, white-space)} with PNG predictors 10..15 (row filters none/sub/up/avg/paeth/mixed) x Colors 1..4 x BitsPerComponent {8,16} x Columns 1..64, DecodeParms as dictionary or as array parallel to Filter with null holes; lopdf's decompressed_content/get_plain_content/decompress must return the plaintext and maintain Length; compress/decompress/set_content/set_plain_content and Document::compress/decompress round trips, also on 1-4 MB of constant or short-period content (maximum deflate ratio) and on already filtered streams. Exhaustive: 2^24 Paeth triples, all Sub/Up/Avg byte pairs through png::decode_row; all 1- and 2-byte final ASCII85 groups (3-byte: every 37th in quick, all 2^24 in thorough); z groups and the 0xFFFFFFFF group. distinct = distinct (dictionary, encoded bytes).".into(),
+        rule: "random plaintexts encoded by the reference encoders through every chain of 1..3 filters over {FlateDecode (stored/fixed/mixed blocks), LZWDecode (EarlyChange 0/1), ASCII85Decode (z, white-space)} with PNG predictors 10..15 (row filters none/sub/up/avg/paeth/mixed) x Colors 1..4 x BitsPerComponent {8,16} x Columns 1..64, DecodeParms as dictionary or as array parallel to Filter with null holes; lopdf's decompressed_content/get_plain_content/decompress must return the plaintext and maintain Length; compress/decompress/set_content/set_plain_content (each starting from a Length entry that is correct, stale, a reference or absent) and Document::compress/decompress round trips, also on 1-4 MB of constant or short-period content (maximum deflate ratio) and on already filtered streams. Exhaustive: 2^24 Paeth triples, all Sub/Up/Avg byte pairs through png::decode_row; all 1- and 2-byte final ASCII85 groups (3-byte: every 37th in quick, all 2^24 in thorough); z groups and the 0xFFFFFFFF group. distinct = distinct (dictionary, encoded bytes).".into(),
         assumptions: vec!["reference encoders/decoders were cross-checked against zlib and base64.a85 during development and self-test at setup (ISO LZW example, zlib streams from real zlib)".into()],
         exhaustive: false,
         min_distinct: 1000,
